@@ -751,8 +751,8 @@ pub proof fn lemma_non_canon_ds_not_ok()
 }
 
 /// THEOREM (the opposite of the former observation_decode_not_canonical): whatever raw ranges come off the wire, every value
-/// the contract of `IdRanges<()>::decode` admits is canonical, unique, not longer than the raw list is irrelevant here (see
-/// the decoder), within the domain of the v1 encoder (start <= end) and of the v2 encoder (ds_writes_ok from register 0)
+/// the contract of `IdRanges<()>::decode` admits is canonical, UNIQUE (the contract determines the value), within the domain
+/// of the v1 encoder (start <= end) and of the v2 encoder (ds_writes_ok from register 0)
 pub proof fn theorem_decoded_ranges_canonical(raw: Seq<Ent<()>>, r: Seq<Ent<()>>, r2: Seq<Ent<()>>)
     requires
         canon_of(raw, r),
